@@ -748,6 +748,8 @@ def np_take(interp, name, args, kw, st, node):
     sh = shape(x)
     rank = len(sh) if sh is not None else None
     ax = axis_of(b.get("axis"), rank)
+    if (b.get("axis") is None or b["axis"].kind == "none") and rank == 1:
+        ax = 0  # take on a vector without an axis
     ish = shape(arrv(idx)) if idx.kind in ("arr", "list", "tuple") else (() if idx.kind in ("int",) else None)
     nsh = None
     if sh is not None and isinstance(ax, int) and ax < len(sh) and ish is not None:
